@@ -1010,7 +1010,8 @@ class AnsiString:
 
         if isinstance(value, AnsiString):
             incoming_str = value._s
-            incoming_fmts = value._fmts
+            # Work on a private copy of the incoming markers - the merge below rewrites them
+            incoming_fmts = {k: _AnsiSettingPoint(list(v.add), list(v.rem)) for k, v in value._fmts.items()}
         else:
             raise TypeError(f'value is invalid type: {type(value)}')
 
